@@ -141,7 +141,15 @@ pub fn inspect<K: EnrKey>(e: &Enr<K>, deep: bool) -> View {
     v.node_id_from_pk = guard("NodeId::from(public_key)", || {
         NodeId::from(e.public_key()).raw()
     });
-    v.node_id_from_ref = guard("NodeId::from(&enr)", || NodeId::from(e).raw());
+    v.node_id_from_ref = guard("NodeId::from(&enr)", || {
+        let by_ref = NodeId::from(e).raw();
+        let by_val = NodeId::from(e.clone()).raw();
+        if by_ref == by_val {
+            by_ref
+        } else {
+            [0u8; 32] // disagreement shows up as a C10 mismatch with node_id()
+        }
+    });
     v.id = guard("id", || e.id());
     v.ip4 = guard("ip4", || e.ip4().map(|a| a.octets()));
     v.ip6 = guard("ip6", || e.ip6().map(|a| a.octets()));
